@@ -40,7 +40,7 @@ inductive Msg where
   | unknownField | notIndexable | memberOperator | unknownMember | impossibleCast | castToFunction
   | missingDefault | nonConstantGlobal | duplicateGlobal | returnOutsideFunction | breakOutsideLoop
   | continueOutsideLoop | notIterable | loopBody | duplicateFunction | mainParams | mainReturn
-  | mainMissing | nameClash
+  | mainMissing | nameClash | closureAcrossThreads | spawnNonFunction
   deriving Repr, DecidableEq, Inhabited
 
 def Msg.name : Msg → String
@@ -60,7 +60,8 @@ def Msg.name : Msg → String
   | .breakOutsideLoop => "breakOutsideLoop" | .continueOutsideLoop => "continueOutsideLoop"
   | .notIterable => "notIterable" | .loopBody => "loopBody" | .duplicateFunction => "duplicateFunction"
   | .mainParams => "mainParams" | .mainReturn => "mainReturn" | .mainMissing => "mainMissing"
-  | .nameClash => "nameClash"
+  | .nameClash => "nameClash" | .closureAcrossThreads => "closureAcrossThreads"
+  | .spawnNonFunction => "spawnNonFunction"
 
 /-! ## Equality test (used by examples and the driver; `DecidableEq` cannot be derived for
 the nested type) -/
